@@ -146,6 +146,14 @@ func c09Run(cs c09Case) (string, string) {
 	for _, e := range cs.Entries {
 		w.UpdateNameMappings(map[string]string{e[0]: e[1]})
 	}
+	return c09Step(w, fd, cs, cs.Entries, [][2]string{{cs.SrcDB, cs.Coll}})
+}
+
+// c09Step performs one operation on an existing writer and judges the calls it caused against the mapping table
+// `entries` (what has been handed to UpdateNameMappings so far); `seen` lists the (database, collection) pairs the
+// writer has operated on so far (bookkeeping keys must derive from them).
+func c09Step(w *ChannelWriter, fd *fakeDown, cs c09Case, entries [][2]string, seen [][2]string) (string, string) {
+	fd.calls = nil
 	mainKind := cs.Kind
 	if cs.Group == "op" {
 		mainKind = opCallKind[cs.Kind]
@@ -156,6 +164,7 @@ func c09Run(cs c09Case) (string, string) {
 	if cs.Group == "dml" {
 		mainKind = "ReplicateMessage"
 	}
+	fd.answer = nil
 	if cs.Fail {
 		fd.answer = func(kind string, p interface{}) error {
 			if kind == mainKind {
@@ -177,8 +186,8 @@ func c09Run(cs c09Case) (string, string) {
 		outPack = dmlPack(v.TS, buildDML(cs.Kind, v, 1), buildDML("TimeTick", v, 2))
 		_, _, _ = w.HandleReplicateMessage(ctx, "tgt-ch", outPack)
 	}
-	wantDB, wantColl := c09Ref(cs.Entries, cs.SrcDB, cs.Coll)
-	dbs := c09RefDBs(cs.Entries, cs.SrcDB)
+	wantDB, wantColl := c09Ref(entries, cs.SrcDB, cs.Coll)
+	dbs := c09RefDBs(entries, cs.SrcDB)
 	var obs []string
 	for i, c := range fd.calls {
 		if c.Kind == "ReplicateMessage" {
@@ -235,10 +244,12 @@ func c09Run(cs c09Case) (string, string) {
 	// bookkeeping keyed by source names only
 	allowed := map[string]bool{}
 	add := func(a, b string) { allowed[a], allowed[b] = true, true }
-	add(util.GetDBInfoKeys(cs.SrcDB))
-	add(util.GetCollectionInfoKeys(cs.Coll, cs.SrcDB))
-	for _, p := range []string{"p1", "p2"} {
-		add(util.GetPartitionInfoKeys(p, cs.Coll, cs.SrcDB))
+	for _, dc := range seen {
+		add(util.GetDBInfoKeys(dc[0]))
+		add(util.GetCollectionInfoKeys(dc[1], dc[0]))
+		for _, p := range []string{"p1", "p2"} {
+			add(util.GetPartitionInfoKeys(p, dc[1], dc[0]))
+		}
 	}
 	for name, m := range map[string]map[string]uint64{"db": w.dbInfos.GetUnsafeMap(), "collection": w.collectionInfos.GetUnsafeMap(), "partition": w.partitionInfos.GetUnsafeMap()} {
 		for k := range m {
@@ -383,4 +394,155 @@ func c09KindName(cs c09Case) string {
 		return eventKinds[int(cs.Kind[0]-'0')].String()
 	}
 	return cs.Kind
+}
+
+// ------------------------------------------------------------------------------------------------
+// histories: one writer lives as long as its downstream and is shared by every task of that downstream; the server
+// hands it more mapping entries whenever a task is created (ReplicateEntity.UpdateMapping). The mapping in force for
+// an operation is the table at the time of the operation, whatever the writer has seen or resolved before.
+
+type c09HStep struct {
+	Op     *c09Case   `json:"op,omitempty"`
+	Update *[2]string `json:"update,omitempty"`
+}
+
+func c09HAlphabet(thorough bool) []c09HStep {
+	var out []c09HStep
+	ops := []struct{ g, k string }{{"op", "CreateIndex"}, {"op", "ReleaseCollection"}, {"event", "2"}, {"dml", "Insert"}}
+	if thorough {
+		ops = append(ops, struct{ g, k string }{"op", "Flush"}, struct{ g, k string }{"event", "1"}, struct{ g, k string }{"dml", "Delete"}, struct{ g, k string }{"op", "DropIndex"})
+	}
+	for _, o := range ops {
+		for _, coll := range []string{"a", "b"} {
+			out = append(out, c09HStep{Op: &c09Case{Group: o.g, Kind: o.k, SrcDB: "other", Coll: coll, Shape: "history"}})
+		}
+	}
+	for _, u := range [][2]string{{"other.*", "Z.*"}, {"other.a", "X.b"}, {"other.a", "Y.c"}, {"other.*", "W.*"}} {
+		u := u
+		out = append(out, c09HStep{Update: &u})
+	}
+	return out
+}
+
+func c09HRun(hist []c09HStep) (string, int) {
+	fd := &fakeDown{}
+	w, _ := newVerifWriter(fd, "", nil)
+	var entries [][2]string
+	var seen [][2]string
+	mapped := 0
+	for i, st := range hist {
+		if st.Update != nil {
+			w.UpdateNameMappings(map[string]string{st.Update[0]: st.Update[1]})
+			done := false
+			for j := range entries {
+				if entries[j][0] == st.Update[0] {
+					entries[j][1] = st.Update[1]
+					done = true
+				}
+			}
+			if !done {
+				entries = append(entries, *st.Update)
+			}
+			continue
+		}
+		seen = append(seen, [2]string{st.Op.SrcDB, st.Op.Coll})
+		if msg, _ := c09Step(w, fd, *st.Op, entries, seen); msg != "" {
+			return fmt.Sprintf("step %d: %s", i, msg), mapped
+		}
+		if d, c := c09Ref(entries, st.Op.SrcDB, st.Op.Coll); d != normDB(st.Op.SrcDB) || c != st.Op.Coll {
+			mapped++
+		}
+	}
+	return "", mapped
+}
+
+func TestVerifC09Histories(t *testing.T) {
+	res := ev.New("C09", "histories")
+	defer res.Write()
+	if p := os.Getenv("VERIF_REPLAY"); p != "" {
+		var f struct {
+			Replay []c09HStep `json:"replay"`
+		}
+		b, _ := os.ReadFile(p)
+		if err := jsonUnmarshal(b, &f); err != nil {
+			t.Fatal(err)
+		}
+		for i := 0; i < 16; i++ {
+			if msg, _ := c09HRun(f.Replay); msg != "" {
+				fmt.Println("REPLAY-VIOLATION", msg)
+				res.Violate("replay", msg, f.Replay)
+				return
+			}
+		}
+		fmt.Println("REPLAY-OK")
+		return
+	}
+	depth, reps := 4, 3
+	if ev.Thorough() {
+		depth, reps = 4, 8
+	}
+	alpha := c09HAlphabet(ev.Thorough())
+	res.Bounds["history_depth"] = depth
+	res.Bounds["alphabet"] = len(alpha)
+	res.Bounds["repetitions"] = reps
+	res.Rule = "every history of <= depth steps over {operation (create index, release collection, create-partition event, insert; thorough: flush, drop-collection event, delete, drop index) on other.a / other.b, UpdateNameMappings with one entry of {other.*->Z.*, other.a->X.b, other.a->Y.c, other.*->W.*}} on ONE real ChannelWriter; after every operation the routing database and the request names of every recorded call are compared with the reference mapping over the table as it is at that moment (later entry for a key replaces the earlier one), bookkeeping keys with the source names of the operations so far; every history is repeated (sync.Map order) and every repetition judged; non-trivial = histories with at least one operation whose names the table changes"
+	idx := make([]int, 0, depth)
+	n := 0
+	var rec func()
+	rec = func() {
+		if len(idx) > 0 {
+			n++
+			if ev.Mine(n) {
+				hist := make([]c09HStep, len(idx))
+				hasOp := false
+				for i, k := range idx {
+					hist[i] = alpha[k]
+					hasOp = hasOp || alpha[k].Op != nil
+				}
+				// a history is judged at its operations: one that ends in an update is a prefix of longer ones
+				if hasOp && hist[len(hist)-1].Op != nil {
+					res.States++
+					for r := 0; r < reps; r++ {
+						msg, mapped := c09HRun(hist)
+						res.Evaluations++
+						res.Transitions += int64(len(hist))
+						if msg != "" {
+							last := hist[len(hist)-1].Op
+							tag := strings.SplitN(strings.SplitN(msg, ": ", 2)[1], ":", 2)[0]
+							res.Violate(fmt.Sprintf("C09/hist/%s/%s-%s", tag, last.Group, c09KindName(*last)), fmt.Sprintf("history %s: %s", c09HDescribe(hist), msg), hist)
+							break
+						}
+						if r == 0 {
+							res.Traces++
+							if mapped > 0 {
+								res.Nontrivial++
+							}
+							res.Outcome(fmt.Sprint(mapped))
+						}
+					}
+				}
+			}
+		}
+		if len(idx) == depth {
+			return
+		}
+		for k := range alpha {
+			idx = append(idx, k)
+			rec()
+			idx = idx[:len(idx)-1]
+		}
+	}
+	rec()
+}
+
+func c09HDescribe(h []c09HStep) string {
+	var out []string
+	for _, s := range h {
+		if s.Update != nil {
+			out = append(out, fmt.Sprintf("map(%s->%s)", s.Update[0], s.Update[1]))
+		} else {
+			out = append(out, fmt.Sprintf("%s-%s(%s.%s)", s.Op.Group, c09KindName(*s.Op), s.Op.SrcDB, s.Op.Coll))
+		}
+	}
+	return strings.Join(out, " ")
 }
